@@ -13,6 +13,7 @@ import SpsdkVerif.Proofs.MbiSignedV21
 import SpsdkVerif.Proofs.MbiEncrypted
 import SpsdkVerif.Proofs.MbiMcxc
 import SpsdkVerif.Proofs.MbiVx
+import SpsdkVerif.Proofs.MbiTzConfig
 
 namespace SpsdkVerif.Properties.C01
 open SpsdkVerif SpsdkVerif.Misc SpsdkVerif.Mbi
@@ -232,6 +233,49 @@ theorem vx_reexport (co : CryptoOps) (k : Vx.Kind) (cfg : Vx.Cfg) (signer signer
 /-- a Vx configuration satisfying the hypotheses (non-vacuity) -/
 example : Vx.cfgWF .signed { app := List.replicate 3100 7, lifecycle := 0x90, fwVersion := 5, cert := List.replicate 136 1,
                              certHash := List.replicate 16 2 } = true := by decide +kernel
+
+/-! ## configuration path: the TrustZone keys `enableTrustZone` / `trustZonePresetFile` (loaders GENERATED from the source) -/
+
+/-- the two `mix_load_from_config` decide as the schema describes the keys: optional TrustZone stays DISABLED unless
+    `enableTrustZone` is true (a preset file named next to `enableTrustZone: false` / no `enableTrustZone` does not switch it
+    on); enabled: the preset file if one is named, else the default; mandatory TrustZone: preset file if named, else default -/
+theorem tz_config_loaders (en pf : Bool) :
+    Generated.MbiClasses.tzLoad .Mbi_MixinTrustZone en pf
+        = some (if en then (if pf then Generated.MbiClasses.TzChoice.preset else .enabled) else .disabled)
+    ∧ Generated.MbiClasses.tzLoad .Mbi_MixinTrustZoneMandatory en pf
+        = some (if pf then Generated.MbiClasses.TzChoice.preset else .enabled) := Mbi.tzLoad_spec en pf
+
+/-- which loader decides, for every class of the database: the optional one exactly for the classes that list
+    `Mbi_MixinTrustZone` itself, the mandatory one for every other class with a TrustZone setting (directly or through the
+    manifest mixins' `super()` chain), none for classes without TrustZone -/
+theorem tz_config_loader_of_class : ∀ c ∈ allClasses,
+    (c.mixins.contains .Mbi_MixinTrustZone = true → c.tzLoader = some .Mbi_MixinTrustZone)
+    ∧ (c.mixins.contains .Mbi_MixinTrustZone = false → c.hasTrustZone = true → c.tzLoader = some .Mbi_MixinTrustZoneMandatory)
+    ∧ (c.hasTrustZone = false → c.tzLoader = none) := Mbi.tzLoader_classes
+
+/-- the setting `load_from_config` derives is what the keys request (schema text, `tzRequestedTag`): its type, and for a
+    preset file the file's content -/
+theorem tz_config_requested (c : Cls) (k : TzKeys) (t : TzCfg)
+    (hl : c.tzLoader = some .Mbi_MixinTrustZone ∨ c.tzLoader = some .Mbi_MixinTrustZoneMandatory)
+    (h : tzOfConfig c k = .ok (some t)) :
+    t.tag = tzRequestedTag (c.tzLoader == some .Mbi_MixinTrustZone) k
+    ∧ (t.tag = tzCustom → ∃ d, k.preset = some (some d) ∧ t = .custom (d.take c.tzSize)) := Mbi.tzOfConfig_requested c k t hl h
+
+/-- END TO END (configuration → image): the image exported for the settings `load_from_config` derives carries in the
+    TrustZone-type bits of its flag word exactly what the configuration requests, and its TrustZone block is the preset file -/
+theorem config_tz_in_image {co : CryptoOps} {env : Env} {c : Cls} {cfg : Cfg} {signer : Signer}
+    (h : Mbi.Hyp co env c cfg signer) (htz : c.hasTrustZone = true) (k : TzKeys)
+    (hl : c.tzLoader = some .Mbi_MixinTrustZone ∨ c.tzLoader = some .Mbi_MixinTrustZoneMandatory)
+    (hk : tzOfConfig c k = .ok (some cfg.tz)) :
+    ∃ e, exportImage co c cfg signer = .ok e
+      ∧ getTzType (rd32 e ivtImageFlagsOffset) = tzRequestedTag (c.tzLoader == some .Mbi_MixinTrustZone) k
+      ∧ (cfg.tz.tag = tzCustom → ∃ d, k.preset = some (some d) ∧ cfg.tz.bytes = d.take c.tzSize) :=
+  Mbi.config_tz_in_image h htz k hl hk
+
+/-- `enableTrustZone: false` with a preset file still named: the request is DISABLED (the seeded defect C01c) -/
+example : tzRequestedTag true { enable := some false, preset := some (some [1, 2, 3, 4]) } = tzDisabled
+    ∧ tzRequestedTag true { enable := none, preset := some (some [1, 2, 3, 4]) } = tzDisabled
+    ∧ tzRequestedTag false { enable := some false, preset := some (some [1, 2, 3, 4]) } = tzCustom := by decide
 
 /-! ## non-vacuity: a concrete non-trivial configuration satisfies the hypotheses (decided) -/
 
